@@ -29,7 +29,13 @@ CFG_IOPREF = {"values": (3, 5), "templates": ("mul2",), "iops": (("add", ("src",
               "leaves_n": 3}
 # two linear knobs sharing a target, plain values assigned to knob targets, a reader of a knob target
 CFG_KNOBS = {"values": (3, 5), "templates": ("mul2",), "knobs": ("K1", "K2")}
-ALPHABETS = {"full": CFG_FULL, "mix": CFG_MIX, "reduced": CFG_REDUCED, "reduced_t": CFG_REDUCED_T, "iopref": CFG_IOPREF, "knobs": CFG_KNOBS}
+# a reader of a whole container, a reader of one member and of the first reader's result, pushes into the member; functions
+# generated for two inputs (the start set of an update has several members)
+CFG_DIAMOND = {"values": (), "templates": ("total", "add", "mul2"), "leaves": [mgr.P("b"), mgr.P("c")],
+               "sources": [mgr.P("n", "x"), mgr.P("b"), mgr.P("a")],
+               "extra": [("set", mgr.P("n", "x"), 5), ("set", mgr.P("a"), 3), ("callfun", (mgr.P("a"), mgr.P("n", "x")), (7, 11)),
+                         ("callfun", (mgr.P("n", "y"), mgr.P("a")), (2, 9)), ("callfun", (mgr.P("n", "x"), mgr.P("n", "y")), (4, 6))]}
+ALPHABETS = {"diamond": CFG_DIAMOND, "full": CFG_FULL, "mix": CFG_MIX, "reduced": CFG_REDUCED, "reduced_t": CFG_REDUCED_T, "iopref": CFG_IOPREF, "knobs": CFG_KNOBS}
 
 
 def alphabet_for(world, name):
@@ -50,11 +56,11 @@ def plan(tier, seed):
     seeds = common.seeds_for(tier, seed)
     jobs = []
     if tier == "quick":
-        runs = [("W-nest", "full", 2), ("W-nest-4", "reduced", 4), ("W-mix", "mix", 2), ("W-flat", "iopref", 4), ("W-knobs", "knobs", 4)]
+        runs = [("W-nest", "full", 2), ("W-nest-4", "reduced", 4), ("W-mix", "mix", 2), ("W-flat", "iopref", 4), ("W-knobs", "knobs", 4), ("W-nest", "diamond", 4)]
         fam_sizes, fam_big = (1, 10, 100, 900, 1100), (3000,)
     else:
         runs = [("W-nest", "full", 3), ("W-nest-small", "reduced_t", 4), ("W-nest-small", "reduced", 5),
-                ("W-mix", "mix", 3), ("W-flat", "iopref", 5), ("W-nest-4", "iopref", 4), ("W-knobs", "knobs", 6)]
+                ("W-mix", "mix", 3), ("W-flat", "iopref", 5), ("W-nest-4", "iopref", 4), ("W-knobs", "knobs", 6), ("W-nest", "diamond", 6)]
         fam_sizes, fam_big = (1, 10, 100, 900, 1100, 3000), (20000,)
     for hs in seeds:
         for wname, alpha, depth in runs:
